@@ -305,3 +305,22 @@ package asp
 //@   opt precall=off
 //@   callsite (scope).Freeze only_after_the_file_was_interpreted [C17]: \
 //@      called("(interpreter).interpretStatements") || called("(interpreter).loadBuiltinStatements")
+
+// f-strings: findBrace returns -1 or the index of a byte of the string; parseFString only slices inside the
+// string (its token is an f-string literal: f, quote, contents, quote — at least three bytes; p.assert does not
+// return when its condition is false). So no byte sequence inside an f-string makes the parser index or slice
+// out of range.
+//@ assume func (parser).assert
+//@   modifies nothing
+//@   ensures holds: condition
+//@ assume func (parser).next
+//@   ensures a_quoted_literal: len(result.Value) >= 3
+//@ func (parser).findBrace
+//@   modifies nothing
+//@   property C19
+//@   ensures in_range [C19]: result == -1 || (0 <= result && result < len(s))
+//@ func (parser).parseFString
+//@   requires p != nil
+//@   property C19
+//@   opt inline=off
+//@   invariant "loop#1" found_inside: idx == -1 || (0 <= idx && idx < len(s))
